@@ -8,9 +8,9 @@ import SqiModel.SignBook
      signbook.fixed <params> small ubits             -> small ubits length row dbl
      signbook.clap <params> expgcd                   -> expgcd exp row
      signbook.safe.dim2 <params> bt v                -> 1/0     (+ .heur v, .fixed small ubits)
-     signbook.flow.dim2 <params> <16 shape flags> cu cf cv bt v ri au af av -> ok | fail | bad <site>
+     signbook.flow.dim2 <params> <17 shape flags> cu cf cv bt v ri au af av -> ok | fail | bad <site>
      signbook.flow.heur <params> <shape> cf rf v ri au af av ;  signbook.flow.hd <shape> cf rf ;
-     signbook.flow.keygen <shape> checked (u a b)*
+     signbook.flow.keygen <shape> checked (u a b)* ;  signbook.flow.fixed <params> <shape> small ubits ri
    (results for .dim2/.heur/.fixed/.clap are printed in *decimal*, the format of the C trace lines) -/
 namespace SqiModel.Drv.SignBook
 open SqiModel.Util SqiModel.SignBook
@@ -21,11 +21,11 @@ def params? : List Nat → Option (Params × List Nat)
 
 def b2s (b : Bool) : String := if b then "1" else "0"
 
-/-- 16 shape flags in the field order of `Shape` -/
+/-- 17 shape flags in the field order of `Shape` -/
 def shape? : List Nat → Option (Shape × List Nat)
-  | a :: b :: c :: d :: e :: f :: g :: h :: i :: j :: k :: l :: m :: n :: o :: p :: rest =>
+  | a :: b :: c :: d :: e :: f :: g :: h :: i :: j :: k :: l :: m :: n :: o :: p :: q :: rest =>
     some (⟨a != 0, b != 0, c != 0, d != 0, e != 0, f != 0, g != 0, h != 0, i != 0, j != 0, k != 0, l != 0, m != 0,
-      n != 0, o != 0, p != 0⟩, rest)
+      n != 0, o != 0, p != 0, q != 0⟩, rest)
   | _ => none
 
 def outcome : Outcome → String
@@ -87,6 +87,12 @@ def handle : List String → Option String
       match rest with
       | [cf, rf, v, ri, au, af, av] =>
         pure (outcome (flowHeur P S ⟨cf != 0, rf != 0, v, ri != 0, ⟨au, af != 0, av != 0⟩⟩))
+      | _ => none
+  | "signbook.flow.fixed" :: args => do
+      let (P, rest) ← params? (← parseNats? args)
+      let (S, rest) ← shape? rest
+      match rest with
+      | [small, ub, ri] => pure (outcome (flowFixedDeg P S (small != 0) ub (ri != 0)))
       | _ => none
   | "signbook.flow.hd" :: args => do
       let (S, rest) ← shape? (← parseNats? args)
